@@ -140,7 +140,13 @@ def gen_trace20(rng, tier='quick'):
     # simulated user (an integer array cannot hold the reported float in place)
     places = [j for j, n in enumerate(etop) if is_point(n) and mvs[n['id']].get('dtype') != 'int64']
     drags = []
-    world = dict(algebra=dict(p=p, q=q, r=r), mvs=mvs, scene=scene, options=options,
+    algebra = dict(p=p, q=q, r=r)
+    if d >= 2 and rng.random() < 0.2:
+        # Algebra(signature=[...]): the same squares in an order of the user's choosing
+        order = list(sig)
+        rng.shuffle(order)
+        algebra['signature'] = order
+    world = dict(algebra=algebra, mvs=mvs, scene=scene, options=options,
                  single_callable=rng.choice([False] * 8 + ['lazy', 'eager']),
                  latency=dict(base=rng.choice([0.001, 0.004]), jitter=rng.choice([0.0, 0.01, 0.06]), p_slow=rng.choice([0, 0.1, 0.3])),
                  p_dup=rng.choice([0, 0, 0.1, 0.3]), float32=rng.random() < 0.8,
